@@ -4,8 +4,8 @@
 //   harness sweep-weekly-tz   <part> <nparts> <tier>     engine I  day-boundary seconds x every tz offset (real activeTimer, virtual wall clock)
 //   harness sweep-oneshot     <part> <nparts> <tier>     engine I
 //   harness sweep-workday     <part> <nparts> <tier>     engine I  calendars with <=3 special days + long holiday stretches
-//   harness sweep-cron        <part> <nparts> <tier>     engine I  three expression shapes, field values at their extremes
-//   harness fire <config> <depth>                        engine H  BFS over enable/disable/refresh/clock histories
+//   harness sweep-cron        <part> <nparts> <tier>     engine I  three expression shapes, field values at their extremes + list/range/step/name expressions with hand-written value sets
+//   harness fire <config> <depth>                        engine H  BFS over enable/disable/refresh/initialize/cleanup/zone/calendar/clock histories, optional action inside the callback
 //   harness fire-replay <config> <op,op,...>             replay one history of a firing configuration
 //
 // Readings (DESIGN.md 1.7, quoted here next to the rules):
@@ -22,7 +22,18 @@
 //    (timer ran out on the monotonic clock) is not counted as that instant's callback; advances then stop where the
 //    alarm's own armed timer is due.
 //  * callbacks are attributed to the nearest matching instant (instants are >= 30 min apart in every configuration,
-//    skew <= 10 ms, wall steps <= 2 h in total).
+//    skew <= 10 ms, wall steps <= 2 h in total) under the time zone that was in force when the alarm armed.
+//  * toggling the explicit time zone (setTimezone) on a live alarm is treated like a wall-clock step: the alarm cannot know
+//    until enable()/refresh(); from then on the earliest matching instant under the NEW zone is demanded.
+//  * initialize() again with the same configuration is refused while running and otherwise changes nothing observable: what
+//    already fired stays fired (early wake-up, disable, initialize, enable must not deliver the same instant twice).
+//    cleanup() stops the alarm and returns it to the un-initialised state (enable() must fail until initialize()); it forgets
+//    what fired, so afterwards both re-firing and not re-firing an instant are accepted.
+//  * an alarm's callback may call enable()/refresh()/disable()/initialize() on its own alarm; a one-shot re-enabled from its
+//    callback must wait for an instant strictly after the one being delivered.  Arming for an instant whose callback already
+//    ran (and that no backward step / cleanup() re-exposed) is reported at the arming, not only when the second callback comes.
+//  * cron: day-of-month and day-of-week both restricted = both must hold (what the bundled ccronexpr implements).  Expressions
+//    the bundled ccronexpr answers wrongly on the unchanged tree are kept behind C20_CRON_KNOWN_DEFECTS=1 (see cron_cases()).
 #include "hist/hist.h"
 #include <tbox/event/loop.h>
 #include <tbox/event/timer_event.h>
@@ -572,6 +583,7 @@ static const char *kCbNames[] = {"none", "enable()", "refresh()", "disable()", "
 struct FireCfg {
   std::string name; RefCfg ref; int alarm_kind;   // 0 weekly, 1 oneshot, 2 cron, 3 workday
   std::string cron; int tz_min; int64_t start_ms; bool wall_steps; int cb_action = CB_NONE; bool cal_ops = false;
+  bool far_target = false;   // target 40..400 days ahead (every arming is an expensive day-by-day search): these configurations are about the delay arithmetic and keep the basic alphabet (no initialize/cleanup/zone toggle)
 };
 enum { EN, DIS, REF, PASS, SKEW, WPLUS, WMINUS, ADV_HALF, ADV_M5, ADV_T, ADV_P1, INIT, CLEANUP, SETTZ, CAL_OFF, CAL_WORK, CAL_CLEAR, NOPS };
 static const char *kOpNames[] = {"enable", "disable", "refresh", "pass", "skew-mono+5ms", "wall+1h", "wall-1h", "adv-half", "adv-to-T-5ms", "adv-to-T", "adv-to-T+1s",
@@ -580,7 +592,8 @@ struct Op { int k; };
 
 static std::vector<FireCfg> fire_cfgs() {
   std::vector<FireCfg> v;
-  auto mk = [&](const char *n, int kind, RefCfg ref, const char *cron, int tz, int64_t start_ms, bool ws) { FireCfg c; c.name = n; c.alarm_kind = kind; c.ref = ref; c.cron = cron ? cron : ""; c.tz_min = tz; c.start_ms = start_ms; c.wall_steps = ws; v.push_back(c); };
+  auto mk = [&](const char *n, int kind, RefCfg ref, const char *cron, int tz, int64_t start_ms, bool ws) { FireCfg c; c.name = n; c.alarm_kind = kind; c.ref = ref; c.cron = cron ? cron : ""; c.tz_min = tz; c.start_ms = start_ms; c.wall_steps = ws;
+    c.far_target = strstr(n, "-days-ahead") != nullptr; v.push_back(c); };
   // the same configuration again with an action inside the callback
   auto with_cb = [&](const char *base, int action, const char *suffix) { for (size_t i = 0; i < v.size(); i++) if (v[i].name == base) { FireCfg c = v[i]; c.name += suffix; c.cb_action = action; v.push_back(c); return; } };
   RefCfg w; w.kind = RefCfg::WEEKLY; w.horizon_days = 8;
@@ -647,9 +660,8 @@ static int fire(const std::string &cfgname, size_t depth, const char *replay = n
     for (int k : {EN, DIS, REF, PASS}) m.push_back({k});
     if (!l.need_pass) for (int k : {ADV_T, ADV_P1, ADV_M5, ADV_HALF}) m.push_back({k});
     if (l.skews < 2) m.push_back({SKEW});
-    m.push_back({INIT});
-    if (l.cleanups < 1) m.push_back({CLEANUP});
-    if (cfg.wall_steps && l.steps < 2) { m.push_back({WPLUS}); m.push_back({WMINUS}); m.push_back({SETTZ}); }
+    if (!cfg.far_target) { m.push_back({INIT}); if (l.cleanups < 1) m.push_back({CLEANUP}); }
+    if (cfg.wall_steps && l.steps < 2) { m.push_back({WPLUS}); m.push_back({WMINUS}); if (!cfg.far_target) m.push_back({SETTZ}); }
     if (cfg.cal_ops && l.calops < 2) { m.push_back({CAL_OFF}); m.push_back({CAL_WORK}); m.push_back({CAL_CLEAR}); }
     return m; };
   uint64_t total_fires = 0, total_arms = 0, premature = 0, cb_actions = 0; std::map<std::string, uint64_t> outcomes;
@@ -844,6 +856,7 @@ int main(int argc, char **argv) {
   if (mode == "fire") return fire(argc > 2 ? argv[2] : "", argc > 3 ? (size_t)atoi(argv[3]) : 6);
   if (mode == "fire-replay") return fire(argc > 2 ? argv[2] : "", 0, argc > 3 ? argv[3] : "");
   if (mode == "list-fire") { for (auto &c : fire_cfgs()) printf("%s\n", c.name.c_str()); return 0; }
+  if (mode == "count-far") { int n = 0; for (auto &c : fire_cfgs()) n += c.far_target; printf("%d\n", n); return 0; }
 #endif
 #ifndef C20_ONLY_FIRE
   int part = argc > 2 ? atoi(argv[2]) : 0, nparts = argc > 3 ? atoi(argv[3]) : 1; bool thorough = argc > 4 && std::string(argv[4]) == "thorough";
